@@ -43,7 +43,7 @@ REAL = ['supp/remote.py Environment', 'supp/server.py module body, Server.proces
         'supp/umsgpack.py', 'supp/assistant.py, linter.py, project.py, ... (the analyser, on real files in a scratch directory)']
 STUB = ['threads/lock/clock/Popen/Listener/Client/Connection -> sim/fakes.py', 'in-process reference Project as the model']
 
-SCRATCH = '/tmp/vsim-c15-%08d' % (os.getpid() % 10 ** 8)
+SCRATCH = os.path.join(os.environ.get('VERIF_SCRATCH', '/tmp'), 'vsim-c15-%08d' % (os.getpid() % 10 ** 8))
 
 
 class Capture(logging.Handler):
@@ -61,7 +61,7 @@ _capture = Capture()
 def worker_init():
     global SCRATCH
     quiet_logging()
-    SCRATCH = '/tmp/vsim-c15-%08d' % (os.getpid() % 10 ** 8)
+    SCRATCH = os.path.join(os.environ.get('VERIF_SCRATCH', '/tmp'), 'vsim-c15-%08d' % (os.getpid() % 10 ** 8))
     lg = logging.getLogger('server')
     if _capture not in lg.handlers:
         lg.addHandler(_capture)
